@@ -239,7 +239,7 @@ def run(ctx):
         groups = [("agent", random_roll(rng, T, E, G, gn, ln, pd))]
         if j % 4 == 0:
             groups.append(("other", random_roll(rng, T, E, rng.randint(1, 2), gn, ln, pd)))
-        for tr, (_, roll) in zip(gae.run_ippo(groups, ("loop", "row")[j % 2], perturb_seed=ctx.seed + j, order=("rev", "id")[j % 2]), groups):
+        for tr, (_, roll) in zip(gae.run_ippo(groups, ("loop", "row")[j % 2], perturb_seed=ctx.seed + j, order=("rev", "id", "mixed")[j % 3]), groups):
             add(tr, roll)
     ctx.extra.update({"ppo_grid_calls": n_ppo_grid, "ippo_grid_calls": n_ippo_grid,
                       "random_traces": len(traces) - n_ppo_grid - n_ippo_grid})
